@@ -83,6 +83,7 @@ def _has_missing(x):
 
 
 ELEMENTWISE = [True]  # set per case: the program has no final reduction / groupby
+BARE = [False]  # set per case: a reduction/groupby directly on the input frame, no row-wise step before
 REPLACES = [False]  # set per case: the program contains a value-replacing step (where/mask/fillna/clip/min_count)
 USER_META = [False]  # set per case: the program passes meta= itself (map/apply/transform/shift)
 
@@ -122,6 +123,10 @@ def dtype_ok(meta_dt, got_dt, values, empty_ok):
     # one (float announced because the fake data dask infers from contains a missing value, int computed).
     if len(values) == 0 or _has_missing(values) or REPLACES[0]:
         return True
+    if BARE[0]:
+        # a reduction/groupby applied directly to the input frame: pandas' result dtype follows from the
+        # input dtypes, nothing value-dependent is left to excuse a difference
+        return False
     return mf[0] == gf[0] and mf[1] == "f" and gf[1] in "iu"
 
 
@@ -248,6 +253,7 @@ def check(spec):
         sig["by"] = "index" if g["by"] == "index" else "series" if isinstance(g["by"], dict) else "cols"
     ELEMENTWISE[0] = not spec.get("final")
     USER_META[0] = uses_user_meta(spec)
+    BARE[0] = bool(spec.get("final")) and not spec.get("ops")
     REPLACES[0] = any(
         n.get("op") in ("where", "mask", "fillna", "clip") or n.get("e") in ("where", "mask") or n.get("m") in ("fillna", "clip") or "min_count" in (n.get("kw") or {})
         for n in D.walk([spec.get("ops", []), spec.get("final") or {}])
